@@ -136,6 +136,7 @@ func checkC18(p *Prog, res *Result, tier string) {
 	res.rule("C18-R4", "SyncReadRevision returns nil only on the leader branch or after SetCurrentRevision(revision fetched from the leader with a nil error)", 2)
 	res.rule("C18-R7", "at most one node passes the IsLeader() guards at a time only while the lock is taken by at most one candidate per observed record (C14-R2/R3/R6)", 3)
 	res.rule("C18-R8", "the revision a follower adopts from the leader sticks: the committed counter is raised by a guarded, retried compare-and-swap (C02-R1), so of two overlapping syncs the larger one wins", 2)
+	res.rule("C18-R9", "a node that loses the lock stops passing its IsLeader() guards at once: the stop callback clears the leader flag by a non-deferred statement on every path before it returns or reaches the call that ends the process", 1)
 	res.rule("C18-R6", "no validating step of the leader fetch fails silently: the error of the request and of decoding the answer is returned, or some other non-nil error is (a step whose data is handed to a later checked step, such as reading the body, is validated by that step)", 2)
 	res.rule("C18-R5", "the revision publisher returns the backend's committed revision only under IsLeader()==true and otherwise answers with a non-2xx status first (or with a constant body the follower cannot decode); the fetch returns success only for status 200", 3)
 
@@ -275,6 +276,7 @@ func checkC18(p *Prog, res *Result, tier string) {
 			}
 		}
 	}
+	checkLeaderStop(p, res, "C18-R9")
 	// ---- R7: one holder of the lock (C14) ----
 	for _, o := range p.subResult("C14", tier).Obls {
 		if o.Rule == "C14-R2" || o.Rule == "C14-R3" || o.Rule == "C14-R6" {
@@ -598,4 +600,125 @@ func feedsFallibleCall(v ssa.Value, self *ssa.Call) bool {
 		return false
 	}
 	return rec(v, 0)
+}
+
+// checkLeaderStop (C18-R9): when the lease is lost the node must stop passing its IsLeader() guards before anything
+// else happens - in particular before the process-ending call the stop callback finishes with, which runs no deferred
+// calls and can take seconds (stack dump, log flush) during which requests are still served. The leader flag (the
+// fields the IsLeader implementation reads) is therefore cleared by an ordinary, non-deferred statement that every path
+// through the callback passes before it reaches a call that does not return, and before it returns.
+func checkLeaderStop(p *Prog, res *Result, rule string) {
+	cbs := p.leaderCallbacks()["OnStoppedLeading"]
+	if len(cbs) == 0 {
+		res.und(rule, "leader-stop callback", "-", "not found")
+		return
+	}
+	for _, cb := range cbs {
+		if cb.Blocks == nil {
+			continue
+		}
+		flagFields := map[*types.Var]bool{}
+		var reads func(f *ssa.Function, d int)
+		reads = func(f *ssa.Function, d int) {
+			if f == nil || f.Blocks == nil || d > 2 || f.Pkg != cb.Pkg {
+				return
+			}
+			for _, b := range f.Blocks {
+				for _, ins := range b.Instrs {
+					if fa, ok := ins.(*ssa.FieldAddr); ok {
+						flagFields[fieldOf(fa)] = true
+					}
+					if c, ok := ins.(*ssa.Call); ok {
+						reads(c.Common().StaticCallee(), d+1)
+					}
+				}
+			}
+		}
+		for _, impl := range p.implsOf(p.ifaceMethod("pkg/server/service/leader", "LeaderElection", "IsLeader")) {
+			if impl.Pkg == cb.Pkg {
+				reads(impl, 0)
+			}
+		}
+		construct := funcName(cb) + ": the leader flag is cleared first"
+		if len(flagFields) == 0 {
+			res.und(rule, construct, p.pos(cb.Pos()), "cannot identify the field IsLeader reads")
+			continue
+		}
+		var writesFlag func(f *ssa.Function, d int) bool
+		clearsHere := func(ins ssa.Instruction, d int) bool {
+			switch x := ins.(type) {
+			case *ssa.Store:
+				if fa, ok := x.Addr.(*ssa.FieldAddr); ok && flagFields[fieldOf(fa)] {
+					return true
+				}
+			case ssa.CallInstruction:
+				if n, ok := isAtomicCall(x); ok && (strings.HasPrefix(n, "Store") || strings.HasPrefix(n, "Swap") || strings.HasPrefix(n, "CompareAndSwap")) {
+					if fa, ok := x.Common().Args[0].(*ssa.FieldAddr); ok && flagFields[fieldOf(fa)] {
+						return true
+					}
+				}
+				if sc := x.Common().StaticCallee(); sc != nil && writesFlag(sc, d+1) {
+					return true
+				}
+			}
+			return false
+		}
+		writesFlag = func(f *ssa.Function, d int) bool {
+			if f == nil || f.Blocks == nil || d > 2 || f.Pkg != cb.Pkg {
+				return false
+			}
+			for _, b := range f.Blocks {
+				for _, ins := range b.Instrs {
+					if clearsHere(ins, d) {
+						return true
+					}
+				}
+			}
+			return false
+		}
+		var clears []ssa.Instruction
+		var deferred ssa.Instruction
+		for _, b := range cb.Blocks {
+			for _, ins := range b.Instrs {
+				if !clearsHere(ins, 0) {
+					continue
+				}
+				if _, isDefer := ins.(*ssa.Defer); isDefer {
+					deferred = ins
+					continue
+				}
+				if _, isGo := ins.(*ssa.Go); isGo {
+					continue
+				}
+				clears = append(clears, ins)
+			}
+		}
+		if len(clears) == 0 {
+			if deferred != nil {
+				res.bad(rule, construct, p.pos(deferred.Pos()), "the leader flag is cleared by a deferred call only: the callback ends in a call that terminates the process without running deferred calls, and until the process is gone (stack dump, log flush) the node that has lost the lock still passes its IsLeader() guards - it accepts writes and serves watches while another node may already lead")
+			} else {
+				res.bad(rule, construct, p.pos(cb.Pos()), "the stop callback does not clear the leader flag: the node that has lost the lock keeps passing its IsLeader() guards")
+			}
+			continue
+		}
+		isClear := map[ssa.Instruction]bool{}
+		for _, c := range clears {
+			isClear[c] = true
+		}
+		hit, _ := searchFrom(cb.Blocks[0], 0, searchOpts{
+			stop: func(i ssa.Instruction) bool { return isClear[i] },
+			bad: func(i ssa.Instruction) bool {
+				if _, ok := i.(*ssa.Return); ok {
+					return true
+				}
+				c, ok := i.(ssa.CallInstruction)
+				return ok && isNoReturnCall(c)
+			},
+		})
+		if hit != nil {
+			res.bad(rule, construct, p.pos(hit.Pos()), "a path through the stop callback reaches its end (or the call that terminates the process) without having cleared the leader flag: the node that has lost the lock still passes its IsLeader() guards in the meantime")
+		} else {
+			res.ok(rule, construct, p.pos(clears[0].Pos()), "non-deferred clear on every path before the callback ends")
+		}
+	}
 }
